@@ -3,7 +3,7 @@
 //! two object-safe traits so that a run can hold instances of different types side by side.
 
 use crate::model::{ErrClass, Outcome};
-use crate::spec::{BOp, DimMode, Field, Kind, Problem};
+use crate::spec::{BOp, DataMode, DimMode, Field, Kind, Problem};
 use crate::stub::{initial_state, rhs, Scalar};
 use bacon_sci::ivp::adams::{Adams3, Adams5};
 use bacon_sci::ivp::bdf::{BDF2, BDF6};
@@ -18,7 +18,35 @@ use std::rc::Rc;
 #[cfg(not(bacon_verif))]
 compile_error!("ivpsim must be built with RUSTFLAGS=\"--cfg bacon_verif\" (the hook in /repo is needed for clause B7)");
 
-pub type DerivBox<N, D> = Box<dyn FnMut(f64, &[N], &mut ()) -> Result<BVector<N, D>, UserError>>;
+pub type DerivBox<N, D, U> = Box<dyn FnMut(f64, &[N], &mut U) -> Result<BVector<N, D>, UserError>>;
+
+/// The user-data type handed to `solve()` and on to the derivative: either the unit type or a
+/// non-zero-sized value that the derivative mutates at every call.
+pub trait SimData: Clone + 'static {
+    fn fresh() -> Self;
+    fn touch(&mut self);
+}
+
+impl SimData for () {
+    fn fresh() -> Self {}
+    fn touch(&mut self) {}
+}
+
+#[derive(Clone, Debug)]
+pub struct Counter {
+    pub calls: u64,
+    pub checksum: u64,
+}
+
+impl SimData for Counter {
+    fn fresh() -> Self {
+        Counter { calls: 0, checksum: 0x9E37 }
+    }
+    fn touch(&mut self) {
+        self.calls += 1;
+        self.checksum = self.checksum.rotate_left(5) ^ self.calls;
+    }
+}
 
 /// What the derivative stub asks the simulator at every call.
 pub trait StubHooks {
@@ -33,42 +61,45 @@ pub trait DtBounds {
 }
 
 macro_rules! impl_dt_bounds {
-    ($($N:ty, $D:ty);* $(;)?) => {$(
-        impl DtBounds for Euler<'static, $N, $D, (), DerivBox<$N, $D>> {
+    ($($N:ty, $D:ty, $U:ty);* $(;)?) => {$(
+        impl DtBounds for Euler<'static, $N, $D, $U, DerivBox<$N, $D, $U>> {
             fn dt_bounds(&self) -> Option<(Option<f64>, Option<f64>)> { None }
         }
-        impl DtBounds for RungeKutta45<'static, $N, $D, (), DerivBox<$N, $D>> {
+        impl DtBounds for RungeKutta45<'static, $N, $D, $U, DerivBox<$N, $D, $U>> {
             fn dt_bounds(&self) -> Option<(Option<f64>, Option<f64>)> { Some(self.verif_dt_bounds()) }
         }
-        impl DtBounds for RungeKutta23<'static, $N, $D, (), DerivBox<$N, $D>> {
+        impl DtBounds for RungeKutta23<'static, $N, $D, $U, DerivBox<$N, $D, $U>> {
             fn dt_bounds(&self) -> Option<(Option<f64>, Option<f64>)> { Some(self.verif_dt_bounds()) }
         }
-        impl DtBounds for Adams5<'static, $N, $D, (), DerivBox<$N, $D>> {
+        impl DtBounds for Adams5<'static, $N, $D, $U, DerivBox<$N, $D, $U>> {
             fn dt_bounds(&self) -> Option<(Option<f64>, Option<f64>)> { Some(self.verif_dt_bounds()) }
         }
-        impl DtBounds for Adams3<'static, $N, $D, (), DerivBox<$N, $D>> {
+        impl DtBounds for Adams3<'static, $N, $D, $U, DerivBox<$N, $D, $U>> {
             fn dt_bounds(&self) -> Option<(Option<f64>, Option<f64>)> { Some(self.verif_dt_bounds()) }
         }
-        impl DtBounds for BDF6<'static, $N, $D, (), DerivBox<$N, $D>> {
+        impl DtBounds for BDF6<'static, $N, $D, $U, DerivBox<$N, $D, $U>> {
             fn dt_bounds(&self) -> Option<(Option<f64>, Option<f64>)> { Some(self.verif_dt_bounds()) }
         }
-        impl DtBounds for BDF2<'static, $N, $D, (), DerivBox<$N, $D>> {
+        impl DtBounds for BDF2<'static, $N, $D, $U, DerivBox<$N, $D, $U>> {
             fn dt_bounds(&self) -> Option<(Option<f64>, Option<f64>)> { Some(self.verif_dt_bounds()) }
         }
     )*};
 }
 
 impl_dt_bounds! {
-    f64, Const<1>; f64, Const<2>; f64, Const<3>; f64, Dyn;
-    Complex<f64>, Const<1>; Complex<f64>, Const<2>; Complex<f64>, Const<3>; Complex<f64>, Dyn;
+    f64, Const<1>, (); f64, Const<2>, (); f64, Const<3>, (); f64, Dyn, ();
+    Complex<f64>, Const<1>, (); Complex<f64>, Const<2>, (); Complex<f64>, Const<3>, (); Complex<f64>, Dyn, ();
+    f64, Const<1>, Counter; f64, Const<2>, Counter; f64, Const<3>, Counter; f64, Dyn, Counter;
+    Complex<f64>, Const<1>, Counter; Complex<f64>, Const<2>, Counter; Complex<f64>, Const<3>, Counter; Complex<f64>, Dyn, Counter;
 }
 
 /// A generic computation to be run for one (solver, scalar, dimension) instantiation.
 pub trait Visitor {
     type Out;
-    fn visit<S, N, D>(self) -> Self::Out
+    fn visit<S, N, D, U>(self) -> Self::Out
     where
         N: Scalar,
+        U: SimData,
         D: Dimension + 'static,
         DefaultAllocator: Allocator<N, D>,
         S: IVPSolver<
@@ -77,43 +108,45 @@ pub trait Visitor {
                 Error = IVPError,
                 Field = N,
                 RealField = f64,
-                UserData = (),
-                Derivative = DerivBox<N, D>,
+                UserData = U,
+                Derivative = DerivBox<N, D, U>,
             > + DtBounds
             + 'static,
         S::Solver: 'static;
 }
 
 macro_rules! by_kind {
-    ($kind:expr, $v:expr, $N:ty, $D:ty) => {
+    ($kind:expr, $v:expr, $N:ty, $D:ty, $U:ty) => {
         match $kind {
-            Kind::Euler => $v.visit::<Euler<'static, $N, $D, (), DerivBox<$N, $D>>, $N, $D>(),
-            Kind::Rk45 => $v.visit::<RungeKutta45<'static, $N, $D, (), DerivBox<$N, $D>>, $N, $D>(),
-            Kind::Rk23 => $v.visit::<RungeKutta23<'static, $N, $D, (), DerivBox<$N, $D>>, $N, $D>(),
-            Kind::Adams5 => $v.visit::<Adams5<'static, $N, $D, (), DerivBox<$N, $D>>, $N, $D>(),
-            Kind::Adams3 => $v.visit::<Adams3<'static, $N, $D, (), DerivBox<$N, $D>>, $N, $D>(),
-            Kind::Bdf6 => $v.visit::<BDF6<'static, $N, $D, (), DerivBox<$N, $D>>, $N, $D>(),
-            Kind::Bdf2 => $v.visit::<BDF2<'static, $N, $D, (), DerivBox<$N, $D>>, $N, $D>(),
+            Kind::Euler => $v.visit::<Euler<'static, $N, $D, $U, DerivBox<$N, $D, $U>>, $N, $D, $U>(),
+            Kind::Rk45 => $v.visit::<RungeKutta45<'static, $N, $D, $U, DerivBox<$N, $D, $U>>, $N, $D, $U>(),
+            Kind::Rk23 => $v.visit::<RungeKutta23<'static, $N, $D, $U, DerivBox<$N, $D, $U>>, $N, $D, $U>(),
+            Kind::Adams5 => $v.visit::<Adams5<'static, $N, $D, $U, DerivBox<$N, $D, $U>>, $N, $D, $U>(),
+            Kind::Adams3 => $v.visit::<Adams3<'static, $N, $D, $U, DerivBox<$N, $D, $U>>, $N, $D, $U>(),
+            Kind::Bdf6 => $v.visit::<BDF6<'static, $N, $D, $U, DerivBox<$N, $D, $U>>, $N, $D, $U>(),
+            Kind::Bdf2 => $v.visit::<BDF2<'static, $N, $D, $U, DerivBox<$N, $D, $U>>, $N, $D, $U>(),
         }
     };
 }
 
 macro_rules! by_dim {
-    ($kind:expr, $dim:expr, $v:expr, $N:ty) => {
+    ($kind:expr, $dim:expr, $v:expr, $N:ty, $U:ty) => {
         match ($dim.dynamic, $dim.n) {
-            (true, _) => by_kind!($kind, $v, $N, Dyn),
-            (false, 1) => by_kind!($kind, $v, $N, Const<1>),
-            (false, 2) => by_kind!($kind, $v, $N, Const<2>),
-            (false, 3) => by_kind!($kind, $v, $N, Const<3>),
+            (true, _) => by_kind!($kind, $v, $N, Dyn, $U),
+            (false, 1) => by_kind!($kind, $v, $N, Const<1>, $U),
+            (false, 2) => by_kind!($kind, $v, $N, Const<2>, $U),
+            (false, 3) => by_kind!($kind, $v, $N, Const<3>, $U),
             _ => panic!("unsupported dimension"),
         }
     };
 }
 
-pub fn dispatch<V: Visitor>(kind: Kind, dim: DimMode, field: Field, v: V) -> V::Out {
-    match field {
-        Field::Real => by_dim!(kind, dim, v, f64),
-        Field::Complex => by_dim!(kind, dim, v, Complex<f64>),
+pub fn dispatch<V: Visitor>(kind: Kind, dim: DimMode, field: Field, data: DataMode, v: V) -> V::Out {
+    match (field, data) {
+        (Field::Real, DataMode::Unit) => by_dim!(kind, dim, v, f64, ()),
+        (Field::Complex, DataMode::Unit) => by_dim!(kind, dim, v, Complex<f64>, ()),
+        (Field::Real, DataMode::Counter) => by_dim!(kind, dim, v, f64, Counter),
+        (Field::Complex, DataMode::Counter) => by_dim!(kind, dim, v, Complex<f64>, Counter),
     }
 }
 
@@ -203,12 +236,12 @@ pub trait ErasedBuilder {
     fn solve(&mut self) -> (Outcome, Option<Box<dyn ErasedIter>>);
 }
 
-struct BuilderBox<S, N, D> {
+struct BuilderBox<S, N, D, U> {
     b: Option<S>,
     hooks: Rc<dyn StubHooks>,
     n: usize,
     y0: f64,
-    _p: std::marker::PhantomData<(N, D)>,
+    _p: std::marker::PhantomData<(N, D, U)>,
 }
 
 pub fn make_vec<N: Scalar, D: Dim>(n: usize, data: &[N]) -> BVector<N, D>
@@ -218,12 +251,13 @@ where
     BVector::<N, D>::from_column_slice_generic(D::from_usize(n), U1::from_usize(1), data)
 }
 
-pub fn make_deriv<N: Scalar, D: Dim + 'static>(hooks: Rc<dyn StubHooks>) -> DerivBox<N, D>
+pub fn make_deriv<N: Scalar, D: Dim + 'static, U: SimData>(hooks: Rc<dyn StubHooks>) -> DerivBox<N, D, U>
 where
     DefaultAllocator: Allocator<N, D>,
 {
     let mut buf: Vec<N> = Vec::new();
-    Box::new(move |t: f64, y: &[N], _: &mut ()| {
+    Box::new(move |t: f64, y: &[N], data: &mut U| {
+        data.touch();
         if let Some(e) = hooks.on_call(t) {
             return Err(e);
         }
@@ -232,9 +266,10 @@ where
     })
 }
 
-impl<S, N, D> ErasedBuilder for BuilderBox<S, N, D>
+impl<S, N, D, U> ErasedBuilder for BuilderBox<S, N, D, U>
 where
     N: Scalar,
+    U: SimData,
     D: Dimension + 'static,
     DefaultAllocator: Allocator<N, D>,
     S: IVPSolver<
@@ -243,8 +278,8 @@ where
             Error = IVPError,
             Field = N,
             RealField = f64,
-            UserData = (),
-            Derivative = DerivBox<N, D>,
+            UserData = U,
+            Derivative = DerivBox<N, D, U>,
         > + DtBounds
         + 'static,
     S::Solver: 'static,
@@ -266,7 +301,7 @@ where
                 BOp::End(v) => b.with_ending_time(v),
                 BOp::IcSlice => b.with_initial_conditions_slice(&initial_state::<N>(n, y0)),
                 BOp::IcVec => b.with_initial_conditions(make_vec::<N, D>(n, &initial_state::<N>(n, y0))),
-                BOp::Deriv => Ok(b.with_derivative(make_deriv::<N, D>(hooks))),
+                BOp::Deriv => Ok(b.with_derivative(make_deriv::<N, D, U>(hooks))),
                 BOp::New | BOp::NewDyn(_) | BOp::Solve => unreachable!("not a setter"),
             }
         }));
@@ -293,7 +328,7 @@ where
             Some(b) => b,
             None => return (Outcome::Panic, None),
         };
-        match catch_unwind(AssertUnwindSafe(move || b.solve(()))) {
+        match catch_unwind(AssertUnwindSafe(move || b.solve(U::fresh()))) {
             Ok(Ok(it)) => (Outcome::Ok, Some(Box::new(it))),
             Ok(Err(e)) => (Outcome::Err(ErrClass::of(&e)), None),
             Err(_) => (Outcome::Panic, None),
@@ -310,9 +345,10 @@ struct Construct<'a> {
 
 impl<'a> Visitor for Construct<'a> {
     type Out = (Outcome, Option<Box<dyn ErasedBuilder>>);
-    fn visit<S, N, D>(self) -> Self::Out
+    fn visit<S, N, D, U>(self) -> Self::Out
     where
         N: Scalar,
+        U: SimData,
         D: Dimension + 'static,
         DefaultAllocator: Allocator<N, D>,
         S: IVPSolver<
@@ -321,8 +357,8 @@ impl<'a> Visitor for Construct<'a> {
                 Error = IVPError,
                 Field = N,
                 RealField = f64,
-                UserData = (),
-                Derivative = DerivBox<N, D>,
+                UserData = U,
+                Derivative = DerivBox<N, D, U>,
             > + DtBounds
             + 'static,
         S::Solver: 'static,
@@ -338,7 +374,7 @@ impl<'a> Visitor for Construct<'a> {
         match r {
             Ok(Ok(b)) => (
                 Outcome::Ok,
-                Some(Box::new(BuilderBox::<S, N, D> {
+                Some(Box::new(BuilderBox::<S, N, D, U> {
                     b: Some(b),
                     hooks: self.hooks,
                     n: self.n,
@@ -357,9 +393,10 @@ pub fn construct(
     kind: Kind,
     dim: DimMode,
     field: Field,
+    data: DataMode,
     ctor: &BOp,
     hooks: Rc<dyn StubHooks>,
     y0: f64,
 ) -> (Outcome, Option<Box<dyn ErasedBuilder>>) {
-    dispatch(kind, dim, field, Construct { ctor, hooks, n: dim.n as usize, y0 })
+    dispatch(kind, dim, field, data, Construct { ctor, hooks, n: dim.n as usize, y0 })
 }
